@@ -119,7 +119,9 @@ def exchange(ctx, version="1.1", methods=("GET", "HEAD", "POST", "PUT"), kinds=(
                         ln["cproto"].data_received(piece)
                         loop.run_ready()
                 moved = True
-            # closes travel too
+            # closes travel too (held back while the two decisions are being compared)
+            if hold_closes["v"]:
+                continue
             if ln["str"].closed and not ln["c_lost"] and ln["spos"] >= len(ln["str"].out):
                 ln["c_lost"] = True
                 if not ln["ctr"].closed:
@@ -135,6 +137,7 @@ def exchange(ctx, version="1.1", methods=("GET", "HEAD", "POST", "PUT"), kinds=(
         return moved
 
     results = []
+    hold_closes = {"v": False}
 
     async def gen():
         yield b"re"
@@ -180,7 +183,17 @@ def exchange(ctx, version="1.1", methods=("GET", "HEAD", "POST", "PUT"), kinds=(
                     break
         return t
 
+    hold_closes["v"] = True
     t1 = run_call(1)
+    if not t1.done():
+        # maybe it waits for the peer's close (close-delimited body): let closes through
+        hold_closes["v"] = False
+        for _ in range(10):
+            if t1.done() or not pump():
+                break
+            loop.run_ready()
+        loop.run_ready()
+        hold_closes["v"] = True
     if not t1.done():
         t1.cancel()
         loop.run_ready()
@@ -203,14 +216,19 @@ def exchange(ctx, version="1.1", methods=("GET", "HEAD", "POST", "PUT"), kinds=(
         return fail("response-status-or-headers-altered")
     if r1[3] != want_resp_body:
         return fail("response-body-altered", got=str(r1[3]))
-    # ---- agreement on connection persistence
+    # ---- agreement on connection persistence: each side's own decision, before closes propagate
     ln = links[0]
-    server_open = not ln["str"].closed
-    client_pooled = any(conns for conns in session.connector._conns.values())
-    if client_pooled and not server_open:
-        return fail("client-pools-connection-server-closed")
-    if server_open and not client_pooled and not ln["ctr"].closed:
-        return fail("connection-in-limbo")
+    loop.run_ready()
+    server_keeps = not ln["str"].closed
+    client_keeps = any(conns for conns in session.connector._conns.values()) and not ln["ctr"].closed
+    if server_keeps != client_keeps and not ln["c_lost"] and not ln["s_lost"]:
+        wire = bytes(ln["str"].out).lower()
+        framed = b"content-length:" in wire or b"transfer-encoding:" in wire
+        shape = f"http{version}:" + ("HEAD" if method == "HEAD" else str(status)) + (":framed" if framed else ":no-length")
+        return fail("ends-disagree-on-keep-alive:server-" + ("keeps" if server_keeps else "closes") +
+                    ":client-" + ("keeps" if client_keeps else "closes") + ":" + shape)
+    hold_closes["v"] = False
+    pump()
     # ---- a second exchange on the same session
     t2 = run_call(2)
     if not t2.done():
